@@ -346,7 +346,8 @@ def scribble(op, result):
     if name == 'mask_values' and op[3] % 3 == 2 and op[2] % 3 == 0:
         return 0
     if name not in ('contains', 'to_mask', 'mask_apply', 'mask_values',
-                    'sky_contains', 'combine', 'rotate', 'copy', 'to_pixel'):
+                    'sky_contains', 'combine', 'rotate', 'copy', 'to_pixel',
+                    'parse', 'parse_table', 'write_read'):
         return 0
     n = 0
 
@@ -360,6 +361,7 @@ def scribble(op, result):
             n += 1
 
     def walk(v):
+        nonlocal n
         if isinstance(v, u.Quantity):
             if v.shape:
                 arr(v.view(np.ndarray))
@@ -370,6 +372,14 @@ def scribble(op, result):
         elif isinstance(v, (list, tuple)):
             for x in v:
                 walk(x)
+        elif name in ('parse', 'parse_table', 'write_read') and hasattr(
+                v, 'meta'):
+            # freshly parsed regions: their list-valued metadata (tags ...)
+            for d in (v.meta, v.visual):
+                for x in list(d.values()):
+                    if isinstance(x, list) and 'EDITED' not in x:
+                        x.append('EDITED')
+                        n += 1
         elif name in ('rotate', 'copy', 'to_pixel') and hasattr(v, '_params'):
             verts = getattr(v, 'vertices', None)
             if verts is not None and hasattr(verts, 'x'):
